@@ -66,14 +66,26 @@ Panicked(obs) == \E i \in Idx(obs) : obs[i].k = "panic"
 Min(S) == CHOOSE x \in S : \A y \in S : x <= y
 Max(S) == CHOOSE x \in S : \A y \in S : y <= x
 
-W(prop, clause, at, comp, cfg, ctx) ==
-  [prop |-> prop, clause |-> clause, at |-> at, comp |-> comp, fam |-> cfg.fam, ctx |-> ctx]
-
 RootKind(cfg) == cfg.nodes[cfg.root].kind
+
+\* a witness: property, clause, position in the trace, component, scenario family (= kind of the root
+\* operator), context, and `op` = the operator the component talks to directly (the root operator for a
+\* sink, the operator subscribed to it for a puppet instance); known findings are keyed on these fields
+WO(prop, clause, at, comp, cfg, ctx, op) ==
+  [prop |-> prop, clause |-> clause, at |-> at, comp |-> comp, fam |-> cfg.fam, ctx |-> ctx, op |-> op]
+W(prop, clause, at, comp, cfg, ctx) == WO(prop, clause, at, comp, cfg, ctx, RootKind(cfg))
+
+\* kind of the operator directly subscribed to the puppet with id pid (root kind if none, e.g. the
+\* inner puppets of flatten, which are handed out by the outer puppet)
+DownKind(cfg, pid) ==
+  LET pn == {n \in 1..Len(cfg.nodes) : cfg.nodes[n].kind \in {"puppet", "puppet_outer"} /\ cfg.nodes[n].pid = pid}
+      dn == {n \in 1..Len(cfg.nodes) : \E i \in 1..Len(cfg.nodes[n].ups) : cfg.nodes[n].ups[i] \in pn}
+  IN IF dn = {} THEN RootKind(cfg) ELSE cfg.nodes[CHOOSE n \in dn : TRUE].kind
 IsShare(cfg) == RootKind(cfg) = "share"
 
 \* ---- owner of a puppet instance: the sink whose subscription created it -----------------------
 SubIdx(obs, u) == LET c == {i \in Calls(obs) : obs[i].to = u /\ obs[i].t = "Sub"} IN IF c = {} THEN 0 ELSE Min(c)
+PidOfU(obs, u) == LET s == SubIdx(obs, u) IN IF s = 0 THEN 0 ELSE obs[s].v
 RECURSIVE OwnerOf(_, _, _, _)
 OwnerOf(cfg, obs, par, u) ==
   LET s == SubIdx(obs, u) IN
@@ -168,15 +180,15 @@ C04(cfg, obs) ==
   IN
   UNION {
     \* two stop messages to the same upstream subscription
-    {W("C04", "double_stop", b, u, cfg, Ctx(cfg, obs, nst, b)) :
+    {WO("C04", "double_stop", b, u, cfg, Ctx(cfg, obs, nst, b), DownKind(cfg, PidOfU(obs, u))) :
         b \in {b \in Calls(obs) : ToC(obs, b, u) /\ IsEndT(obs[b].t) /\ UStoppedBefore(obs, u, b)}}
     \cup
     \* anything sent to an upstream that had already ended by itself
-    {W("C04", "after_self_end", b, u, cfg, Ctx(cfg, obs, nst, b)) :
+    {WO("C04", "after_self_end", b, u, cfg, Ctx(cfg, obs, nst, b), DownKind(cfg, PidOfU(obs, u))) :
         b \in {b \in Calls(obs) : ToC(obs, b, u) /\ obs[b].t \in {"P", "T", "E"} /\ USelfEndedBefore(obs, u, b)}}
     \cup
     \* a Pull on a talkback the operator itself has terminated
-    {W("C04", "msg_after_stop", b, u, cfg, Ctx(cfg, obs, nst, b)) :
+    {WO("C04", "msg_after_stop", b, u, cfg, Ctx(cfg, obs, nst, b), DownKind(cfg, PidOfU(obs, u))) :
         b \in {b \in Calls(obs) : ToC(obs, b, u) /\ obs[b].t = "P" /\ UStoppedBefore(obs, u, b)}}
     \cup
     \* a Pull before the upstream greeted (no talkback exists yet)
@@ -394,7 +406,6 @@ C07(cfg, obs) ==
 \* helpers for the operator-specific properties
 NMem(cfg) == Len(cfg.nodes[cfg.root].ups)
 MPid(cfg, m) == cfg.nodes[cfg.nodes[cfg.root].ups[m]].pid
-PidOfU(obs, u) == LET s == SubIdx(obs, u) IN IF s = 0 THEN 0 ELSE obs[s].v
 Owners(cfg, obs, nst) == [u \in UNames(cfg, obs) |-> OwnerOf(cfg, obs, nst.par, u)]
 \* the instance of member m in K's subscription ("" if that member was never subscribed)
 MemInst(cfg, obs, mine, m) ==
